@@ -49,8 +49,9 @@ CLAIMS = {
              "(only_blocking x scheduling) valuation: ts_sched = tick/rate + phase; ts_start = max(ts_max, ts_end_prev, ts_sched + drift) "
              "(schedule term dropped iff advance and all inputs blocking); drift' = max(drift, ts_end_prev - ts_sched) | 0 (PHASE); "
              "ts_end = ts_start + sampled delay and that the header, the next ts_end_prev and every consumer get it; "
-             "recv = max(sent + delay, prev_recv) with prev_recv := recv; ts_max = max(0, awaited arrivals); record fields share these definitions. "
-             "Not decided: the wall-clock branch, float rounding at 1e-6.",
+             "recv = max(sent + delay, prev_recv) with prev_recv := recv; ts_max = max(0, awaited arrivals); record fields share these definitions; "
+             "the graph generator's per-node scan follows the same law for the settings it supports (start(0) = phase, end = start + sampled delay, "
+             "next start = max(end, start + 1/rate)). Not decided: the wall-clock branch, float rounding at 1e-6.",
         ref="§5 C04"),
     "C05": dict(
         technique="typestate automaton extraction and comparison, release-before-wait ordering of the user/supervisor hand-shake, enqueue=>trigger and guard=>pop dataflow over branch atoms, reset-completeness (mutated attributes subset of re-initialised attributes)",
